@@ -44,3 +44,5 @@ def rules(ctx):
     S.child_pair_rules(ctx)
     S.root_pair_rules(ctx)
     S.survey_residue_rules(ctx)
+    S.create_only_when_empty_rules(ctx)
+    S.durability_guard_rules(ctx)
